@@ -285,9 +285,32 @@ XPOOL = {   # type -> (plain wire values, dicts that build an instance for marsh
     json.dumps(["L", C("P")]): ([[{"a": 1, "b": "5"}]], []),
 }
 XTYPES = [json.loads(k) for k in XPOOL]
+# Python-literal (non-JSON) texts: strload falls back to ast.literal_eval, which builds tuples and sets that hold
+# lists / dicts; and the targets that pass loaded sub-objects through
+LITERAL_TEXTS = ['[1, 2], {"k": [3]}', '([1], {"a": [2]})', "(1, [2, 3])", "((1, [2]), [3])", "[(1, [2])]",
+                 "{'a': (1, [2])}", "{(1, 2), (3, 4)}", "{1, 2}", "([1, 2],)", "1, 2", "{'a': {5, 7}}", "([{'k': [1]}], 2)"]
+PASS_TYPES = [["BT"], ["T", [BL, BD]], ["TV", ["ANY"]], BL, BD, ["BS"], ["ANY"], ["OBJ"], ["T", [["ANY"], ["ANY"]]],
+              ["L", ["BT"]], ["D", ["BT"]], ["L", ["ANY"]] if False else ["TV", BL]]
+
+
+def literal_scenario(rng):
+    """read a literal text, deep-mutate the result, read it again (same or another pass-through target)"""
+    txt = rng.choice(LITERAL_TEXTS)
+    x = ["s", txt] if rng.random() < 0.7 else ["y", txt]
+    t1 = rng.choice(PASS_TYPES)
+    ops = [{"op": "unmarshal", "t": t1, "x": {"new": x}}]
+    k = 0
+    for _ in range(rng.randint(1, 2)):
+        ops.append({"op": "mutres", "i": k, "path": rng.choice([[0], [1], [1, 0], [0, 1], [], [0, 0]])})
+    if rng.random() < 0.2:
+        ops.append({"op": "build_u", "t": rng.choice(PASS_TYPES)})
+    ops.append({"op": "unmarshal", "t": rng.choice([t1, t1, rng.choice(PASS_TYPES)]), "x": {"new": x}})
+    return ops
 
 
 def gen_history_x(rng, maxlen):
+    if rng.random() < 0.3:
+        return literal_scenario(rng)
     n = rng.randint(3, maxlen)
     fam = rng.sample(XTYPES, rng.randint(2, 4)) + rng.sample(TYPES, 2)
     ops, nres, ninp = [], [], 0
@@ -595,13 +618,16 @@ def correspond(run: lib.Run):
     run.samples.append({"history": hists[len(corpus_histories())][:4], "observed": runs[len(corpus_histories())]["obs"][:4]})
 
 
-def corpus_histories():
+def corpus_histories(oracle_only=False):
+    """corpus entries marked "oracle_only" use types / values outside the Coq model (tuples, sets, classes)"""
     d = os.path.join(lib.VERIF, "corpus", "C12")
     out = []
     if os.path.isdir(d):
         for fn in sorted(os.listdir(d)):
             if fn.endswith(".json"):
-                out.append(json.load(open(os.path.join(d, fn)))["ops"])
+                c = json.load(open(os.path.join(d, fn)))
+                if bool(c.get("oracle_only")) == oracle_only:
+                    out.append(c["ops"])
     return out
 
 
@@ -701,7 +727,7 @@ def search(run: lib.Run, broken):
     fails = oracle(pool, hists, runs, stats)
     # structured and cyclic types (Delayed* proxies, TypeContext memo, get_items_iter): oracle only
     rngx = random.Random(run.seed + 3)
-    xh = [gen_history_x(rngx, run.budget(12, 30)) for _ in range(run.budget(150, 2500))]
+    xh = corpus_histories(oracle_only=True) + [gen_history_x(rngx, run.budget(12, 30)) for _ in range(run.budget(150, 2500))]
     xr = pool.map([{"kind": "history", "ops": h} for h in xh])
     stx = {}
     fails += oracle(pool, xh, xr, stx)
